@@ -24,7 +24,7 @@ for p in props:
     except Exception as e:
         nk = '?'
     models = sorted(os.path.basename(x) for x in glob.glob(os.path.join(V, 'coq', 'Model', f'M_{pid}*.v')) + glob.glob(os.path.join(V, 'coq', 'Spec', f'S_{pid}*.v')))
-    extra = {'C02': ['Trace.v'], 'C04': ['Paraxial.v', 'S_ABCD.v'], 'C08': ['Seidel.v', 'S_Seidel.v'], 'C16': ['Trace.v']}.get(pid, [])
+    extra = {'C02': ['Trace.v', 'Plumb.v', 'PlumbSteps.v'], 'C04': ['Paraxial.v', 'S_ABCD.v'], 'C08': ['Seidel.v', 'S_Seidel.v'], 'C16': ['Trace.v', 'Plumb.v', 'PlumbSteps.v']}.get(pid, [])
     ev = {}
     try:
         ev = json.load(open(os.path.join(V, 'evidence', pid + '.json')))
